@@ -6,6 +6,13 @@ from . import pysrc
 
 FETCH_T = "option Z -> option Z -> bool -> list ivl"
 
+# Gen/Source.v may mention the models' data types and library models (freq, zmem, sl_add, ...)
+HEADER = pysrc.HEADER.replace("From CG Require Import Model.Loop.",
+                              "From CG Require Import Model.Loop Model.Recur Model.Cache.")
+
+# self.freq is one of four strings: an enumeration (Model/Recur.v)
+FREQ = {"FREQ": ("freq_eqb", {"daily": "Daily", "weekly": "Weekly", "monthly": "Monthly", "yearly": "Yearly"})}
+
 SPECS = [
     dict(name="g_finite_start", file="calgebra/interval.py", cls="Interval", func="finite_start", kind="expr",
          params=[("self", "IVL")], ret="Z"),
@@ -39,12 +46,31 @@ SPECS = [
          params=[("source_fetch", FETCH_T), ("self_gap", "Z"), ("start", "OZ"), ("end", "OZ")],
          selfattrs={"gap": ("self_gap", "Z")},
          calls={"self.source.fetch": ("source_fetch", ["OZ", "OZ", "B"], "LIST")}),
+    # ---- recurrence.py.  datetime values are an abstract type DT; the library calls (fromtimestamp,
+    # rrule, ...) and the other methods are parameters of the generated definition.
+    dict(name="g_recur_fetch_forward", file="calgebra/recurrence.py", cls="RecurringPattern", func="_fetch_forward",
+         kind="gen", res=True, tyvars=["DT"], types={"DT": "DT", "FREQ": "freq"}, enums=FREQ,
+         params=[("self_freq", "FREQ"), ("self_interval", "Z"), ("self_duration_seconds", "Z"),
+                 ("self_exdates", "L:Z"),
+                 ("dt_fromtimestamp", "Z -> DT"), ("get_safe_anchor", "DT -> DT"), ("dt_midnight", "DT -> DT"),
+                 ("rrule_of", "DT -> list DT"), ("occurrence_to_interval", "DT -> ivl"),
+                 ("start", "OZ"), ("end", "OZ")],
+         selfattrs={"freq": ("self_freq", "FREQ"), "interval": ("self_interval", "Z"),
+                    "duration_seconds": ("self_duration_seconds", "Z"), "exdates": ("self_exdates", "L:Z")},
+         calls={"datetime.fromtimestamp": dict(coq="dt_fromtimestamp", args=["Z"], fixed={"tz": "self.zone"}, ret="DT"),
+                "self._get_safe_anchor": ("get_safe_anchor", ["DT"], "DT"),
+                "rrule": dict(coq="rrule_of", args=[], kw=[("dtstart", "DT")], fixed={"**": "self.rrule_kwargs"},
+                              ret="L:DT"),
+                "self._occurrence_to_interval": ("occurrence_to_interval", ["DT"], "IVL")},
+         methods={("DT", "replace"): dict(coq="dt_midnight", args=[],
+                                          fixed={"hour": "0", "minute": "0", "second": "0", "microsecond": "0"},
+                                          ret="DT")}),
 ]
 
 
 def regenerate(repo: Path, coq_dir: Path):
     """Rewrite Gen/Source.v if its content changed.  Returns ({name: error}, text)."""
-    text, errors = pysrc.translate_all(repo, SPECS)
+    text, errors = pysrc.translate_all(repo, SPECS, HEADER)
     out = coq_dir / "Gen" / "Source.v"
     if not out.exists() or out.read_text() != text:
         out.write_text(text)
